@@ -308,6 +308,12 @@ def run(tier):
     c09.check_codecs.__globals__['FuncVC']  # same codec VCs as C09, reported under this property too
     sub = common.Report('C10', tier, 'other', 'x')
     c09.check_codecs(sub)
+    c09.check_rle_structure(sub)        # a .z80 file that cannot be decompressed cannot be resumed from
+    nr_, badr_ = c09.rle_bounded(tier == 'quick')
+    rep.bounded.append({'function': 'skoolkit.snapshot.Z80._make_z80_ram_block / Z80._decompress (see C09)', 'contract': 'decompress(compress(d)) == d',
+                        'bound': 'all strings over {ED,00,01} up to length 9 x 2 block forms; runs 1..600 of ED and of 07 with every prefix/suffix in {none, ED, 09}', 'evaluations': nr_})
+    for b in badr_[:2]:
+        rep.violation('C10/rle/%s' % b[0], 'Z80 run-length coder (a snapshot written mid-run must decompress to the RAM it was made from): %s' % (b,), {'case': {'rle': list(map(str, b))}})
     rep.add_bulk(sub.discharged, 'z3', sum(sub.solver_s.values()), 'snapshot T-state / register codecs (see C09)', n=sub.obligations)
     for v in sub.violations:
         rep.violation('C10/codec/' + v[0], v[1], {'see': 'C09'})
@@ -344,5 +350,23 @@ def replay(path):
     with open(path) as f:
         doc = json.load(f)
     print('replaying', doc.get('key'), doc.get('case'))
+    case = doc.get('case') or {}
+    if 'rle' in case:
+        n_, bad = c09.rle_bounded(True)
+        print(bad[:2])
+        if bad:
+            print('VIOLATION property=C10 replay=%s' % path)
+            return 1
+        return 0
+    if str(doc.get('key', '')).startswith('C10/codec/') or 'see' in doc:
+        sub = common.Report('C10', 'quick', 'other', 'x')
+        c09.check_codecs(sub)
+        print([v[0] for v in sub.violations][:3])
+        if sub.violations:
+            print('VIOLATION property=C10 replay=%s' % path)
+            return 1
+        return 0
     print(doc.get('what'))
+    if doc.get('no_failing_input_found'):
+        print('VIOLATION property=C10 replay=%s no-failing-input-found' % path)
     return 1
